@@ -30,7 +30,7 @@ def mutants(prog):
     from .common import source_sub
     A, L, K = "deepali.core.affine", "deepali.core.linalg", "deepali.core._kornia"
     specs = [
-        ('inverted Euler rotation by negated reversed angles, same order', 'deepali.spatial.linear', 'EulerRotation.tensor', 'mat = U.euler_rotation_matrix(self.angles(), order=self.order)\n    if self.invert:\n        mat = mat.transpose(1, 2)', 'angles = self.angles()\n    if self.invert:\n        angles = angles.neg().flip(-1)\n    mat = U.euler_rotation_matrix(angles, order=self.order)', 'euler-inverted'),
+        ('inverted Euler rotation by negated reversed angles, same order', 'deepali.spatial.linear', 'EulerRotation.tensor', 'mat = U.euler_rotation_matrix(self.angles(), order=self.order)\n    if self.invert:\n        mat = mat.transpose(1, 2)', 'angles = self.angles()\n    if self.invert:\n        angles = angles.neg().flip(-1)\n    mat = U.euler_rotation_matrix(angles, order=self.order)', 'T8.accessors'),
         ("XYZ sign", A, "euler_rotation_matrix", "matrix[..., 0, 1] = -c[..., 1] * s[..., 2]", "matrix[..., 0, 1] = c[..., 1] * s[..., 2]", "order=XYZ"),
         ("ZYX swap c/s", A, "euler_rotation_matrix", "matrix[..., 1, 0] = c[..., 1] * s[..., 0]", "matrix[..., 1, 0] = s[..., 1] * c[..., 0]", "order=ZYX"),
         ("ZXY index", A, "euler_rotation_matrix", "matrix[..., 2, 1] = s[..., 1]", "matrix[..., 2, 1] = s[..., 2]", "order=ZXY"),
